@@ -1131,7 +1131,12 @@ where
     // (see Section 2.2), this section MUST be copied as well."
     match xfr_state {
         XFRState::AXFRInit | XFRState::IXFRInit => {
-            if !msg.is_answer(answer.for_slice()) {
+            // The first message has to have the question section. Only
+            // an error reply can do without it.
+            if !msg.is_answer(answer.for_slice())
+                || (answer.header_counts().qdcount() == 0
+                    && answer.header().rcode() == Rcode::NOERROR)
+            {
                 xfr_state = XFRState::Error;
                 // If we detect an error, then keep the stream open. We are
                 // likely out of sync with respect to the sender.
